@@ -99,3 +99,81 @@ func DictBytes(t *rapid.T, maxExtra int, label string) []byte {
 	}
 	return out
 }
+
+var (
+	intDictOnce sync.Once
+	intDict     []int
+)
+
+// SourceIntLiterals returns the integer constants in [lo, hi] that occur in
+// the library's non-test sources, as literals or as `1 << k` expressions,
+// parsed from the current tree (vendored generated arithmetic under
+// internal/fiat is skipped: its literals are limb constants).  A list length,
+// a count or a size at which the code switches algorithm, batches or caps
+// something is written down in the source as such a number; lengths next to
+// every one of them are where a length-dependent path begins.
+func SourceIntLiterals(lo, hi int) []int {
+	intDictOnce.Do(func() {
+		set := map[int]bool{}
+		root := os.Getenv("VERIF_REPO")
+		if root == "" {
+			root = "/repo"
+		}
+		fset := token.NewFileSet()
+		_ = filepath.Walk(root, func(p string, info os.FileInfo, err error) error {
+			if err != nil {
+				return nil
+			}
+			if info.IsDir() {
+				if (strings.HasPrefix(info.Name(), ".") && p != root) || info.Name() == "testdata" || info.Name() == "fiat" {
+					return filepath.SkipDir
+				}
+				return nil
+			}
+			if !strings.HasSuffix(p, ".go") || strings.HasSuffix(p, "_test.go") {
+				return nil
+			}
+			f, err := parser.ParseFile(fset, p, nil, 0)
+			if err != nil {
+				return nil
+			}
+			intOf := func(e ast.Expr) (int, bool) {
+				if lit, ok := e.(*ast.BasicLit); ok && lit.Kind == token.INT {
+					if v, err := strconv.ParseInt(strings.ReplaceAll(lit.Value, "_", ""), 0, 64); err == nil && v >= 0 && v < 1<<31 {
+						return int(v), true
+					}
+				}
+				return 0, false
+			}
+			ast.Inspect(f, func(n ast.Node) bool {
+				switch x := n.(type) {
+				case *ast.BasicLit:
+					if v, ok := intOf(x); ok {
+						set[v] = true
+					}
+				case *ast.BinaryExpr:
+					if x.Op == token.SHL {
+						if a, ok1 := intOf(x.X); ok1 {
+							if k, ok2 := intOf(x.Y); ok2 && k < 31 && a > 0 && a < 1<<10 {
+								set[a<<uint(k)] = true
+							}
+						}
+					}
+				}
+				return true
+			})
+			return nil
+		})
+		for v := range set {
+			intDict = append(intDict, v)
+		}
+		sort.Ints(intDict)
+	})
+	var out []int
+	for _, v := range intDict {
+		if v >= lo && v <= hi {
+			out = append(out, v)
+		}
+	}
+	return out
+}
